@@ -281,7 +281,11 @@ pub fn sheet_p_sel(ws: &Worksheet, o: Opts, with_collections: bool) -> Value {
         let mut imgs: Vec<Value> = ws
             .get_image_collection()
             .iter()
-            .map(|im| json!({"name": im.get_image_name(), "at": im.get_coordinate(), "bytes": im.get_image_data().len(), "hash": format!("{:016x}", crate::common::fnv(im.get_image_data()))}))
+            .map(|im| {
+                // a linked (not embedded) picture is identified by its external target
+                let link = im.get_two_cell_anchor().and_then(|a| a.get_picture()).or_else(|| im.get_one_cell_anchor().and_then(|a| a.get_picture())).map(|p| p.get_blip_fill().get_blip().get_link().to_string()).unwrap_or_default();
+                json!({"name": im.get_image_name(), "at": im.get_coordinate(), "bytes": im.get_image_data().len(), "hash": format!("{:016x}", crate::common::fnv(im.get_image_data())), "link": link})
+            })
             .collect();
         imgs.sort_by_key(|v| v.to_string());
         m.insert("images".into(), json!(imgs));
